@@ -15,16 +15,22 @@ type F1 struct {
 	Id    int64
 	OrgId int64
 	Name  string
+	Tags  []string
+	POpt  *string
 }
 type F2 struct {
 	Id    int64
 	OrgId int64
 	Label string
+	Tags  []string
+	POpt  *string
 }
 type F3 struct {
 	Id    int64
 	OrgId int64
 	Flag  bool
+	Tags  []string
+	POpt  *string
 }
 type FU struct {
 	schemabuilder.Union
@@ -49,12 +55,29 @@ type F3KeyOrg struct {
 	OrgId int64
 }
 
+// key structs with a list-typed and a nullable key field
+type F1KeyTags struct {
+	Id   int64
+	Tags []string
+	POpt *string
+}
+type F2KeyTags struct {
+	Id   int64
+	Tags []string
+	POpt *string
+}
+type F3KeyTags struct {
+	Id   int64
+	Tags []string
+	POpt *string
+}
+
 var fedNames = []string{"F1", "F2", "F3"}
 
 var fedKeyTypes = map[string]map[string]reflect.Type{
-	"F1": {"all": reflect.TypeOf(&F1{}), "id": reflect.TypeOf(F1KeyId{}), "org": reflect.TypeOf(F1KeyOrg{})},
-	"F2": {"all": reflect.TypeOf(&F2{}), "id": reflect.TypeOf(F2KeyId{}), "org": reflect.TypeOf(F2KeyOrg{})},
-	"F3": {"all": reflect.TypeOf(&F3{}), "id": reflect.TypeOf(F3KeyId{}), "org": reflect.TypeOf(F3KeyOrg{})},
+	"F1": {"all": reflect.TypeOf(&F1{}), "id": reflect.TypeOf(F1KeyId{}), "org": reflect.TypeOf(F1KeyOrg{}), "tags": reflect.TypeOf(F1KeyTags{})},
+	"F2": {"all": reflect.TypeOf(&F2{}), "id": reflect.TypeOf(F2KeyId{}), "org": reflect.TypeOf(F2KeyOrg{}), "tags": reflect.TypeOf(F2KeyTags{})},
+	"F3": {"all": reflect.TypeOf(&F3{}), "id": reflect.TypeOf(F3KeyId{}), "org": reflect.TypeOf(F3KeyOrg{}), "tags": reflect.TypeOf(F3KeyTags{})},
 }
 
 func init() {
@@ -64,13 +87,22 @@ func init() {
 }
 
 func mkFed(typ string, id int64) interface{} {
+	tags := []string{}
+	for i := int64(0); i < id%3; i++ {
+		tags = append(tags, fmt.Sprintf("t%d", i))
+	}
+	var opt *string
+	if id%3 != 0 {
+		s := fmt.Sprintf("o%d", id)
+		opt = &s
+	}
 	switch typ {
 	case "F1":
-		return &F1{Id: id, OrgId: id % 3, Name: fmt.Sprintf("n%d", id)}
+		return &F1{Id: id, OrgId: id % 3, Name: fmt.Sprintf("n%d", id), Tags: tags, POpt: opt}
 	case "F2":
-		return &F2{Id: id, OrgId: id % 2, Label: fmt.Sprintf("l%d", id)}
+		return &F2{Id: id, OrgId: id % 2, Label: fmt.Sprintf("l%d", id), Tags: tags, POpt: opt}
 	case "F3":
-		return &F3{Id: id, OrgId: id % 4, Flag: id%2 == 0}
+		return &F3{Id: id, OrgId: id % 4, Flag: id%2 == 0, Tags: tags, POpt: opt}
 	}
 	return nil
 }
@@ -165,7 +197,7 @@ func GenPartition(t *rapid.T, s *Spec) *FedPartition {
 	}
 	for _, svc := range p.Services {
 		for _, o := range fedNames {
-			p.Keys[svc+"/"+o] = rapid.SampledFrom([]string{"all", "id", "org"}).Draw(t, "keyvariant")
+			p.Keys[svc+"/"+o] = rapid.SampledFrom([]string{"all", "id", "org", "tags"}).Draw(t, "keyvariant")
 		}
 	}
 	return p
